@@ -36,8 +36,8 @@ LABELS = ['dir-pkl', 'dir-json', 'dir-fast', 'dir-z', 'dir-mmap', 'dir-src', 'sq
 
 READ_OPS = [(4, 'get'), (2, 'getd'), (3, 'contains'), (2, 'len'), (3, 'keys'), (1, 'iter'), (4, 'items'), (3, 'load'),
             (1, 'values')]
-WRITE_KINDS = ('set', 'setdefault', 'update', 'dump', 'del', 'pop')
-REMOVE_KINDS = ('del', 'pop')
+WRITE_KINDS = ('set', 'setdefault', 'update', 'dump', 'del', 'pop', 'discard')
+REMOVE_KINDS = ('del', 'pop', 'discard')
 
 
 def op_writes(op):
@@ -79,7 +79,8 @@ def generate(rng, prop, tier):
     else:
         roles = rng.choice([['writer', 'writer'], ['writer', 'reader'], ['overwriter', 'reader'],
                             ['deleter', 'reader'], ['writer', 'opener'], ['writer', 'writer', 'reader'],
-                            ['writer', 'overwriter', 'reader'], ['writer', 'reader', 'reader']])
+                            ['writer', 'overwriter', 'reader'], ['writer', 'reader', 'reader'],
+                            ['discarder', 'writer'], ['discarder', 'writer', 'reader']])
     clients = []
     fresh = iter(keys[len(pre):])
     owned = {}
@@ -121,6 +122,15 @@ def generate(rng, prop, tier):
             else:
                 k = avail.pop()
             ops.append({'op': rng.choice(['del', 'pop']), 'k': k})
+        elif role == 'discarder':
+            # the "remove it if it is there" idiom on a key nobody stores, followed by reads on the same handle
+            ops.append({'op': 'discard', 'k': next(fresh)})
+            for j in range(rng.randint(0, 2)):
+                kind = rng.choice(['contains', 'len', 'get', 'keys'])
+                op = {'op': kind}
+                if kind in ('get', 'contains'):
+                    op['k'] = rng.choice(keys[:len(pre) + 3])
+                ops.append(op)
         elif role == 'reader':
             for j in range(n):
                 kind = rng.weighted(READ_OPS)
@@ -181,6 +191,13 @@ def do_op(state, cfg, root, op):
     if k == 'del':
         del a[op['k']]
         return None
+    if k == 'discard':
+        try:
+            del a[op['k']]
+            return 'removed'
+        except KeyError:
+            return 'absent'
+
     if k == 'pop':
         return a.pop(op['k'])
     if k == 'get':
@@ -234,6 +251,9 @@ def client_main(idx, case, root, ev_w, go_r):
                      'slept': clock.slept})
         _wait(go_r)
     _send(ev_w, {'t': 'done', 'counts': fs.counts})
+    # stay alive (idle, with every handle still open) until the scheduler ends the run: a long-lived
+    # process that is between two operations must not stand in anybody's way
+    _wait(go_r)
     os._exit(0)
 
 
@@ -409,11 +429,20 @@ def _analyse(case, history, final):
         return k in init or any(s < re and v is not _ABSENT for (s, e, v, ack, _) in writes.get(k, []))
 
     role = [c['role'] for c in case['clients']]
+
+    def nobody_in_flight(o):
+        """at the moment operation o gave up, was every other client idle (between operations or finished)?"""
+        e = o['end'] or INF
+        return not any(o2['c'] != o['c'] and o2['start'] < e and (o2['end'] or INF) > e for o2 in ops.values())
     for key, o in sorted(ops.items()):
         op, res = o['op'], o['res']
         c = o['c']
         rs, re = o['start'], o['end'] or INF
         kind = op['op']
+        if res is not None and res[0] != 'ok' and f == 'sql' and 'locked' in str(res[1]) and nobody_in_flight(o):
+            return 'locked-by-idle-client', 'client %d (%s): %s gave up with %r after the busy timeout although no ' \
+                'other client had an operation in flight: an idle process is holding a database lock' \
+                % (c, role[c], json.dumps(op), res[1])
         if res is None:
             return 'client-stuck', 'operation %s of client %d never returned' % (json.dumps(op), c)
         tag = res[0]
